@@ -28,6 +28,11 @@ pub fn translate(query: &str) -> Result<LogicalPlan> {
 struct GremlinTranslator {
     /// Counter for generating anonymous variables.
     var_counter: AtomicU32,
+    /// For every edge variable produced by outE/inE/bothE: the variable the step started from,
+    /// the variable at the other end, and the direction of the step.
+    edge_ends: std::cell::RefCell<
+        std::collections::HashMap<String, (String, String, ExpandDirection)>,
+    >,
 }
 
 /// Context for building an edge during traversal processing.
@@ -42,6 +47,7 @@ impl GremlinTranslator {
     fn new() -> Self {
         Self {
             var_counter: AtomicU32::new(0),
+            edge_ends: std::cell::RefCell::new(std::collections::HashMap::new()),
         }
     }
 
@@ -434,6 +440,14 @@ impl GremlinTranslator {
                 let edge_var = self.next_var();
                 let target_var = self.next_var();
                 let edge_type = labels.first().cloned();
+                self.edge_ends.borrow_mut().insert(
+                    edge_var.clone(),
+                    (
+                        current_var.to_string(),
+                        target_var.clone(),
+                        ExpandDirection::Outgoing,
+                    ),
+                );
                 let plan = LogicalOperator::Expand(ExpandOp {
                     from_variable: current_var.to_string(),
                     to_variable: target_var,
@@ -451,6 +465,14 @@ impl GremlinTranslator {
                 let edge_var = self.next_var();
                 let target_var = self.next_var();
                 let edge_type = labels.first().cloned();
+                self.edge_ends.borrow_mut().insert(
+                    edge_var.clone(),
+                    (
+                        current_var.to_string(),
+                        target_var.clone(),
+                        ExpandDirection::Incoming,
+                    ),
+                );
                 let plan = LogicalOperator::Expand(ExpandOp {
                     from_variable: current_var.to_string(),
                     to_variable: target_var,
@@ -468,6 +490,14 @@ impl GremlinTranslator {
                 let edge_var = self.next_var();
                 let target_var = self.next_var();
                 let edge_type = labels.first().cloned();
+                self.edge_ends.borrow_mut().insert(
+                    edge_var.clone(),
+                    (
+                        current_var.to_string(),
+                        target_var.clone(),
+                        ExpandDirection::Both,
+                    ),
+                );
                 let plan = LogicalOperator::Expand(ExpandOp {
                     from_variable: current_var.to_string(),
                     to_variable: target_var,
@@ -480,6 +510,31 @@ impl GremlinTranslator {
                     path_alias: None,
                 });
                 Ok((plan, Some(edge_var)))
+            }
+
+            // From an edge to one of its vertices: no new operator, the expand that produced the
+            // edge already bound both ends
+            ast::Step::InV | ast::Step::OutV | ast::Step::OtherV => {
+                let ends = self.edge_ends.borrow().get(current_var).cloned();
+                let Some((from_var, other_var, direction)) = ends else {
+                    return Err(Error::Internal(
+                        "inV()/outV()/otherV() must follow outE(), inE() or bothE()".to_string(),
+                    ));
+                };
+                let vertex = match (step, direction) {
+                    (ast::Step::OtherV, _) => other_var,
+                    (ast::Step::InV, ExpandDirection::Outgoing)
+                    | (ast::Step::OutV, ExpandDirection::Incoming) => other_var,
+                    (ast::Step::InV, ExpandDirection::Incoming)
+                    | (ast::Step::OutV, ExpandDirection::Outgoing) => from_var,
+                    _ => {
+                        return Err(Error::Internal(
+                            "inV()/outV() after bothE() is not supported; use otherV()"
+                                .to_string(),
+                        ));
+                    }
+                };
+                Ok((input, Some(vertex)))
             }
 
             // Filter steps
